@@ -38,7 +38,8 @@ Classes(entry, dim) ==
            [] dim = "domains" -> {"none", "project", "other", "empty_string"}
            [] dim = "change_set" -> {"delete_unknown", "update_unknown", "add_existing", "all_empty"})
     [] entry = "log" ->
-         (CASE dim = "forwarded" -> {"garbage", "many", "v6", "empty", "obfuscated"}
+         (CASE dim = "forwarded" -> {"garbage", "many", "v6", "empty", "obfuscated", "lone_quote", "empty_quotes", "quote_proto", "bracket_only", "port_only", "eq_only",
+                                     "port_overflow", "empty_brackets", "xff_ports", "for_upper"}
            [] dim = "misc" -> {"no_action", "code_0", "code_65535", "time_max", "headers_5000"})
     [] entry = "tokenizer" ->
          (CASE dim = "body" -> {"empty", "lone_lt", "truncated_tag", "truncated_comment", "invalid_utf8", "script_1mb", "nested_10k", "nul_bytes", "only_end_tags", "cdata", "doctype_only"})
